@@ -6,10 +6,11 @@ replay(ctx, record).
 """
 import cpu_rv32i
 import cpu_msp430
+import cpu_m6502
 import cpu_sweep
 
 ID = "C01"
-CPU_MODULES = [cpu_rv32i, cpu_msp430, cpu_sweep]
+CPU_MODULES = [cpu_rv32i, cpu_msp430, cpu_m6502, cpu_sweep]
 
 LEAN_MODULES = ["NakenVerif.Props.C01"] + [m for c in CPU_MODULES for m in c.LEAN_MODULES]
 THEOREMS = [t for c in CPU_MODULES for t in c.C01_THEOREMS]
